@@ -10,7 +10,9 @@ import random
 
 LITS = 'ab.'
 BRACKETS = ['b0[c61,c62]', 'b1[c61]', 'b0[r61-63]', 'b0[palpha]', 'b0[c2e]', 'b1[c2e]', 'b0[pdigit,c5f]',
-            'b1[r30-39]', 'b0[c2d,c61]', 'b0[ppunct]', 'b0[r2b-30]']
+            'b1[r30-39]', 'b0[c2d,c61]', 'b0[ppunct]', 'b0[r2b-30]', 'b0[pdigit,r61-66]', 'b1[pdigit,c5f,r61-66]',
+            'b0[r61-63,palpha]', 'b0[pupper,c2e,r61-62]', 'b0[c5d,c61]', 'b1[c5d]', 'b0[pspace,pxdigit]',
+            'b0[r61-62,r78-7a]', 'b0[pword,c2d]']
 
 
 def lit(c):
@@ -64,8 +66,10 @@ class Gen:
             return 's'
         if r < 0.60:
             return 'q'
-        if r < 0.74:
+        if r < 0.70:
             return self.rng.choice(BRACKETS)
+        if r < 0.76:
+            return random_bracket(self.rng)
         if depth <= 0:
             return lit(self.rng.choice(self.lits))
         kinds = 'QSPA' + ('N' if (allow_neg and top) else '')
@@ -119,6 +123,26 @@ class Gen:
         root = 'R' if self.rng.random() < 0.12 else 'r'
         trail = 'T' if self.rng.random() < 0.25 else 't'
         return '%s:%s:%s' % (root, '/'.join(segs), trail)
+
+
+def random_bracket(rng):
+    """A random bracket expression AST (wire) mixing classes, ranges and characters."""
+    items = []
+    for _ in range(rng.randint(1, 4)):
+        r = rng.random()
+        if r < 0.35:
+            items.append('p' + rng.choice(['alnum', 'alpha', 'ascii', 'blank', 'cntrl', 'digit', 'graph', 'lower',
+                                           'print', 'punct', 'space', 'upper', 'word', 'xdigit']))
+        elif r < 0.7:
+            lo = rng.choice('aAbx0+_')
+            hi = chr(min(0x7a, ord(lo) + rng.randint(0, 6)))
+            if hi == '/':
+                hi = '0'      # a written `/` would end the segment in path mode
+            items.append('r%x-%x' % (ord(lo), ord(hi)))
+        else:
+            items.append('c%x' % ord(rng.choice('abxz._0')))
+    # a range item directly after a class prints `[:cls:]a-f` (fine); a char '-' only first
+    return 'b%d[%s]' % (rng.randint(0, 1), ','.join(items))
 
 
 def names_upto(alphabet, maxlen, minlen=1):
